@@ -84,11 +84,24 @@ func cronAnswer(line string) (ans string) {
 		if err != nil {
 			return "bad-request " + err.Error()
 		}
+		// The answer depends on the trigger's location, never on the PROCESS's time zone: for a named zone every other request is
+		// answered with time.Local set to that zone (the ordinary deployment TZ=<zone>), the rest with time.Local = UTC.
+		time.Local = time.UTC
+		if _, numeric := strconv.Atoi(f[2]); numeric != nil && (prev/1e9)%2 == 0 {
+			time.Local = loc
+		}
+		defer func() { time.Local = time.UTC }()
 		tr, err := quartz.NewCronTriggerWithLoc(expr, loc)
 		if err != nil {
 			return classify(err)
 		}
 		d0 := tr.Description()
+		if (len(expr)+int(prev%7)+7)%2 == 0 {
+			// the answer is a function of (expression, location, prev) alone: a question asked earlier on the same trigger object — here
+			// one from beyond the last fire time, which is answered "expired" — must not change it (deterministic choice, half of the cases)
+			_, _ = tr.NextFireTime(math.MaxInt64)
+			_, _ = tr.NextFireTime(unixOf(2262, 4, 1, 0, 0, 0) * 1e9)
+		}
 		r1, e1 := tr.NextFireTime(prev)
 		r2, e2 := tr.NextFireTime(prev)
 		if r1 != r2 || (e1 == nil) != (e2 == nil) || tr.Description() != d0 {
@@ -153,7 +166,10 @@ func placePrev(r *rand.Rand, sp *oracle.Spec) (int64, string) {
 	recent := func() int64 {
 		return unixOf(1990, 1, 1, 0, 0, 0) + r.Int63n(unixOf(2080, 1, 1, 0, 0, 0)-unixOf(1990, 1, 1, 0, 0, 0))
 	}
-	switch r.Intn(14) {
+	switch r.Intn(15) {
+	case 14: // the last year boundary: within 14 h of local 2262-01-01 00:00 (east of Greenwich the UTC year is still 2261, west of it
+		// the UTC year is already 2262 while the wall clock shows 2261): bounds checked in one clock and used in the other show here
+		return unixOf(2262, 1, 1, 0, 0, 0) + r.Int63n(28*3600) - 14*3600, "year-2262-boundary"
 	case 0:
 		return uniform(), "uniform"
 	case 1:
@@ -184,12 +200,19 @@ func placePrev(r *rand.Rand, sp *oracle.Spec) (int64, string) {
 	case 6: // year end
 		y := 1990 + r.Intn(90)
 		return unixOf(y, 12, 31, 23, 59, 59-r.Intn(2)), "year-end"
-	case 7: // leap day area
+	case 7: // leap day area (every other time: the century years that are NOT leap years)
+		if r.Intn(2) == 0 {
+			y := []int{2100, 2200}[r.Intn(2)]
+			return unixOf(y, 2, 24+r.Intn(5), r.Intn(24), r.Intn(60), r.Intn(60)), "century-feb"
+		}
 		y := 1972 + 4*r.Intn(70)
 		return unixOf(y, 2, 27+r.Intn(3), r.Intn(24), r.Intn(60), r.Intn(60)), "leap-feb"
 	case 8: // end of the representable range
 		return unixOf(2261, 1, 1, 0, 0, 0) + r.Int63n(hi-unixOf(2261, 1, 1, 0, 0, 0)), "range-end"
-	case 9: // the very beginning
+	case 9: // the very beginning; west of Greenwich the wall clock still shows 1969 there (the caller clamps prev at 0)
+		if r.Intn(2) == 0 {
+			return lo - r.Int63n(14*3600), "epoch-local-1969"
+		}
 		return lo + r.Int63n(3*86400), "epoch"
 	case 12, 13: // a matching instant with ONE field moved off its value (more significant fields still match, less significant ones
 		// arbitrary): the state in which a wrong validity test of that field is not masked by a carry from above
